@@ -352,7 +352,7 @@ def run(ctx):
     cbs = F.find1(seg + "compute_bytecode_segment_lengths")
     g("R19.5", "segments:find_functions_segments?", cbs, CallResult("find_functions_segments", "Break"), bypass="none")
 
-    ctx.floor("C19 obligations", len(ctx.obligations), 35)
+    ctx.floor("C19 obligations", len(ctx.obligations), 28)
     _controls(ctx, F, ids, proto)
 
 
